@@ -47,8 +47,13 @@ Rep(kind, e, what, extra) ==
 StateOfLoad(e) == [er |-> ErOf(e.pre), ccr |-> CcrOf(e.pre), pc |-> PcOf(e.pre), ov |-> <<>>, li |-> l]
 PostState(e, mem2) == [er |-> ErOf(e.post), ccr |-> CcrOf(e.post), pc |-> PcOf(e.post), ov |-> mem2.ov, li |-> vS.li]
 
+RunVal0(pk, a) == LET v == RunVal(pk, a) IN IF v < 0 THEN 0 ELSE v
 LoadEvent(e) ==
-  /\ vR' = [vR EXCEPT !.s = StateOfLoad(e), !.pend = e.pend, !.req = e.pend, !.ent = <<>>, !.sum = IF "sum" \in DOMAIN e THEN e.sum ELSE <<0, 0>>, !.ports = [k \in Ports |-> PortInit], !.odr = [k \in Ports |-> 0], !.tm = TimerTraceInit, !.paused = FALSE, !.stopped = FALSE, !.exit = IF "exit" \in DOMAIN e THEN e.exit[1] * P16 + e.exit[2] ELSE -1]
+  /\ vR' = [vR EXCEPT !.s = StateOfLoad(e), !.pend = e.pend, !.req = e.pend, !.ent = <<>>, !.sum = IF "sum" \in DOMAIN e THEN e.sum ELSE <<0, 0>>, (* a snapshot taken in mid-run: direction registers and pin levels as the registers show them, the  *)
+                      (* output latch unknown until the next DR write; the timer runs with whatever TCR says, phase unknown *)
+                      !.ports = [k \in Ports |-> [ddr |-> RunVal0(e.pk, DdrLo + k - 1), latch |-> 0, written |-> FALSE, pin |-> RunVal0(e.pk, DrLo + k - 1)]],
+                      !.odr = [k \in Ports |-> RunVal0(e.pk, DrLo + k - 1)],
+                      !.tm = TimerWrite(TimerTraceInit, TCR0, RunVal0(e.pk, TCR0), <<>>), !.paused = FALSE, !.stopped = FALSE, !.exit = IF "exit" \in DOMAIN e THEN e.exit[1] * P16 + e.exit[2] ELSE -1]
 
 SameBag(a, b) == Len(a) = Len(b) /\ \A v \in 0..255 : Cardinality({i \in 1..Len(a) : a[i] = v}) = Cardinality({i \in 1..Len(b) : b[i] = v})
 (* `snap`: a state snapshot logged every few thousand iterations of a long run.  As the FIRST event of a  *)
